@@ -23,8 +23,9 @@ struct Vector  { const Real* data; int n; };          /* Vector (read only here)
 extern int fec_nEvents;                        /* number of event triggers == length of eLow, eHigh, eventTriggerInfo */
 extern const struct EventTriggerInfo* fec_eti; /* IntegratorRep::eventTriggerInfo payload */
 extern int  fec_gi, fec_gp;                    /* ghost positions (free) */
-extern bool fec_g_listed; extern int fec_g_pos, fec_g_src, fec_g_wit;   /* recorded by the hooks */
+extern bool fec_g_listed; extern int fec_g_pos, fec_g_src, fec_g_src_e, fec_g_wit;   /* recorded by the hooks */
 extern int  fec_n0; extern Real fec_e0;        /* per-iteration snapshots taken by FEC_ITER_BEGIN */
+extern Real fec_last_w, fec_g_w;               /* localisation requirement (the abstracted product) of the last push / of position fec_gp */
 
 /* ---- sequence operations (executable contracts: bounds are proof obligations) ---- */
 static int  idx_size(const struct IdxSeq* s)   { return s->n; }
@@ -53,8 +54,8 @@ __CPROVER_assigns()
 __CPROVER_ensures(__CPROVER_return_value == v->data[k] && FIN(__CPROVER_return_value))
 ;
 /* accuracyInUse*timeScaleInUse*window: symbolic product -> ANY double (incl. NaN/inf): pure over-approximation, no lemma
-   needed (narrowestWindow >= minWindow is carried by the max with minWindow alone) */
-Real vf_mul3(Real a, Real b, Real c) __CPROVER_requires(1) __CPROVER_assigns() __CPROVER_ensures(1) ;
+   needed (narrowestWindow >= minWindow is carried by the max with minWindow alone). Ghost: the value is remembered in fec_last_w. */
+Real vf_mul3(Real a, Real b, Real c) __CPROVER_requires(1) __CPROVER_assigns(fec_last_w) __CPROVER_ensures(fec_last_w == __CPROVER_return_value || (__CPROVER_isnand(fec_last_w) && __CPROVER_isnand(__CPROVER_return_value))) ;
 
 /* ---- per-trigger specification (property text: "lists only events whose triggers actually changed sign in a monitored
    direction"): same predicates as in h_reported_transition ---- */
@@ -62,7 +63,15 @@ Real vf_mul3(Real a, Real b, Real c) __CPROVER_requires(1) __CPROVER_assigns() _
 #define FEC_FALL(eLow, eHigh, e) ((eLow)->data[e] > 0 && !((eHigh)->data[e] > 0) && fec_eti[e].triggerOnFalling)
 #define FEC_RISE(eLow, eHigh, e) ((eLow)->data[e] < 0 && !((eHigh)->data[e] < 0) && fec_eti[e].triggerOnRising)
 #define FEC_LISTED(eLow, eHigh, e) (FEC_FALL(eLow, eHigh, e) || FEC_RISE(eLow, eHigh, e))
-#define FEC_EST_OK(x) (tLow <= (x) && (x) <= tHigh && ((tHigh - tLow > minWindow && MINWINDOW_VISIBLE(tLow, tHigh, minWindow)) ==> FEC_INSIDE(tLow, x, tHigh)))
+/* ghost CONSTANTS of one call (functions of the inputs only; the harness defines them before the call, nothing assigns them):
+   fec_gi_e = trigger index examined at the ghost position fec_gi; fec_wide = "the bracket is wider than the roundoff window and
+   the roundoff window is visible at these times" (the case in which estimateRootTime promises a strictly interior estimate).
+   They keep conditional expressions out of array indices (CBMC's symex cost is exponential in those). */
+extern int fec_gi_e; extern bool fec_wide;
+#define FEC_GHOST_CONSTANTS(viable, nCand) \
+  ( ((0 <= fec_gi && fec_gi < (nCand)) ==> (fec_gi_e == FEC_TRIG(viable, fec_gi) && 0 <= fec_gi_e && fec_gi_e < fec_nEvents)) \
+    && fec_wide == (tHigh - tLow > minWindow && MINWINDOW_VISIBLE(tLow, tHigh, minWindow)) )
+#define FEC_EST_OK(x) (tLow <= (x) && (x) <= tHigh && (fec_wide ==> FEC_INSIDE(tLow, x, tHigh)))
 
 /* the facts about the delivered lists, at loop head `upto` (== number of examined positions) and at exit (upto == nCandidates);
    one macro per clause so that every clause is an obligation of its own */
@@ -73,17 +82,18 @@ Real vf_mul3(Real a, Real b, Real c) __CPROVER_requires(1) __CPROVER_assigns() _
        with its own index, the direction to report and an estimate inside the bracket */
 #define FEC_F2(viable, upto) \
   ((0 <= fec_gi && fec_gi < (upto)) ==> \
-      ( fec_g_listed == FEC_LISTED(eLow, eHigh, FEC_TRIG(viable, fec_gi)) \
+      ( fec_g_listed == FEC_LISTED(eLow, eHigh, fec_gi_e) \
         && (fec_g_listed ==> ( 0 <= fec_g_pos && fec_g_pos < candidates->n \
-                               && candidates->data[fec_g_pos] == FEC_TRIG(viable, fec_gi) \
-                               && transitions->data[fec_g_pos] == (FEC_FALL(eLow, eHigh, FEC_TRIG(viable, fec_gi)) ? Falling : Rising) \
+                               && candidates->data[fec_g_pos] == fec_gi_e \
+                               && transitions->data[fec_g_pos] == (FEC_FALL(eLow, eHigh, fec_gi_e) ? Falling : Rising) \
                                && FEC_EST_OK(timeEstimates->data[fec_g_pos]) )) ))
-/* (3) every delivered position comes from an examined position whose trigger changed sign (so it is in [0,nEvents)) */
+/* (3) every delivered position comes from an examined position (fec_g_src, trigger index fec_g_src_e) whose trigger changed
+       sign (so it is in [0,nEvents)) */
 #define FEC_F3(viable, upto) \
   ((0 <= fec_gp && fec_gp < candidates->n) ==> \
-      ( 0 <= fec_g_src && fec_g_src < (upto) && candidates->data[fec_gp] == FEC_TRIG(viable, fec_g_src) \
-        && 0 <= candidates->data[fec_gp] && candidates->data[fec_gp] < fec_nEvents \
-        && FEC_LISTED(eLow, eHigh, FEC_TRIG(viable, fec_g_src)) && FEC_EST_OK(timeEstimates->data[fec_gp]) ))
+      ( 0 <= fec_g_src && fec_g_src < (upto) && fec_g_src_e == FEC_TRIG(viable, fec_g_src) && candidates->data[fec_gp] == fec_g_src_e \
+        && 0 <= fec_g_src_e && fec_g_src_e < fec_nEvents \
+        && FEC_LISTED(eLow, eHigh, fec_g_src_e) && FEC_EST_OK(timeEstimates->data[fec_gp]) ))
 /* (4) in order: the map examined position -> delivered position is strictly increasing */
 #define FEC_F4(viable, upto) \
   ((0 <= fec_gp && fec_gp < candidates->n && 0 <= fec_gi && fec_gi < (upto) && fec_g_listed) ==> \
@@ -93,16 +103,18 @@ Real vf_mul3(Real a, Real b, Real c) __CPROVER_requires(1) __CPROVER_assigns() _
   ( (candidates->n == 0 ==> *earliestTimeEst == Infinity) \
     && (candidates->n > 0 ==> ( 0 <= fec_g_wit && fec_g_wit < candidates->n && timeEstimates->data[fec_g_wit] == *earliestTimeEst && FEC_EST_OK(*earliestTimeEst) )) \
     && ((0 <= fec_gp && fec_gp < candidates->n) ==> *earliestTimeEst <= timeEstimates->data[fec_gp]) )
-/* (6) narrowestWindow is never below the roundoff window (Infinity if there is no candidate) */
+/* (6) narrowestWindow is never below the roundoff window (Infinity if there is no candidate) and never wider than the localisation
+       requirement of any delivered candidate (fec_g_w: the requirement accuracy*timeScale*window of position fec_gp, floored at minWindow) */
 #define FEC_F6(viable, upto) \
-  ( (candidates->n == 0 ==> *narrowestWindow == Infinity) && (candidates->n > 0 ==> *narrowestWindow >= minWindow) )
+  ( (candidates->n == 0 ==> *narrowestWindow == Infinity) && (candidates->n > 0 ==> *narrowestWindow >= minWindow) \
+    && ((0 <= fec_gp && fec_gp < candidates->n && !__CPROVER_isnand(fec_g_w)) ==> *narrowestWindow <= (fec_g_w < minWindow ? minWindow : fec_g_w)) )
 #define FEC_FACTS(viable, upto) \
   ( FEC_F1(viable, upto) && FEC_F2(viable, upto) && FEC_F3(viable, upto) && FEC_F4(viable, upto) && FEC_F5(viable, upto) && FEC_F6(viable, upto) )
 
 /* ghost hooks */
 #define FEC_ITER_BEGIN(i) { fec_n0 = candidates->n; fec_e0 = *earliestTimeEst; }
 #define FEC_ITER_END(i)   { if ((i) == fec_gi) { fec_g_listed = (candidates->n > fec_n0); fec_g_pos = fec_n0; } \
-                            if (candidates->n > fec_n0 && fec_n0 == fec_gp) fec_g_src = (i); \
+                            if (candidates->n > fec_n0 && fec_n0 == fec_gp) { fec_g_src = (i); fec_g_src_e = FEC_TRIG(viableCandidates, i); fec_g_w = fec_last_w; } \
                             if (!(*earliestTimeEst == fec_e0)) fec_g_wit = timeEstimates->n - 1; }
 
 /* ---- loop contract of `for (int i=0; i<nCandidates; ++i)`: invariant, assigns set, variant. The extractor turns the loop into
@@ -112,17 +124,36 @@ Real vf_mul3(Real a, Real b, Real c) __CPROVER_requires(1) __CPROVER_assigns() _
 #define FEC_LOOP_INV  (0 <= i && i <= nCandidates && FEC_FACTS(viableCandidates, i))
 int nondet_int(void); Real nondet_real(void); bool nondet_bool(void);
 #define VF_LOOP_HEAD_FEC() \
-  __CPROVER_assert(FEC_LOOP_INV, "findEventCandidates.loop_invariant_base"); \
+  __CPROVER_assert(0 <= i && i <= nCandidates, "findEventCandidates.loop_invariant_base (0) 0 <= i <= nCandidates"); \
+  __CPROVER_assert(FEC_F1(viableCandidates, i), "findEventCandidates.loop_invariant_base (1) equal lengths, at most one delivery per examined position"); \
+  __CPROVER_assert(FEC_F2(viableCandidates, i), "findEventCandidates.loop_invariant_base (2) examined position delivered iff its trigger changed sign in a monitored direction (index, direction, estimate in bracket)"); \
+  __CPROVER_assert(FEC_F3(viableCandidates, i), "findEventCandidates.loop_invariant_base (3) every delivered index comes from an examined position whose trigger changed sign"); \
+  __CPROVER_assert(FEC_F4(viableCandidates, i), "findEventCandidates.loop_invariant_base (4) delivery preserves the order of the examined list"); \
+  __CPROVER_assert(FEC_F5(viableCandidates, i), "findEventCandidates.loop_invariant_base (5) earliestTimeEst is the attained minimum of the delivered estimates"); \
+  __CPROVER_assert(FEC_F6(viableCandidates, i), "findEventCandidates.loop_invariant_base (6) minWindow <= narrowestWindow <= localisation requirement of every delivered candidate"); \
   const struct IdxSeq vf_c0 = *candidates; const struct RealSeq vf_t0 = *timeEstimates; const struct TrigSeq vf_r0 = *transitions; \
   { /* havoc the assigns set: i, the three lengths and contents, the two scalar results, the ghosts */ \
     i = nondet_int(); candidates->n = nondet_int(); timeEstimates->n = nondet_int(); transitions->n = nondet_int(); \
     __CPROVER_havoc_object(candidates->data); __CPROVER_havoc_object(timeEstimates->data); __CPROVER_havoc_object(transitions->data); \
     *earliestTimeEst = nondet_real(); *narrowestWindow = nondet_real(); \
-    fec_g_listed = nondet_bool(); fec_g_pos = nondet_int(); fec_g_src = nondet_int(); fec_g_wit = nondet_int(); fec_n0 = nondet_int(); fec_e0 = nondet_real(); } \
+    fec_g_listed = nondet_bool(); fec_g_pos = nondet_int(); fec_g_src = nondet_int(); fec_g_src_e = nondet_int(); fec_g_wit = nondet_int(); fec_n0 = nondet_int(); fec_e0 = nondet_real(); fec_last_w = nondet_real(); fec_g_w = nondet_real(); } \
   __CPROVER_assume(FEC_LOOP_INV); \
   const int vf_i0 = i;
+#ifdef FEC_COVER   /* vacuity guards (run with --cover): the end of the loop body is reachable under the invariant, with and without a push */
+#define FEC_STEP_COVER __CPROVER_cover(candidates->n > fec_n0 && fec_n0 > 1 && vf_i0 == fec_gi); __CPROVER_cover(candidates->n == fec_n0 && vf_i0 == fec_gi); \
+                       __CPROVER_cover(candidates->n > fec_n0 && fec_n0 == fec_gp && fec_gi < vf_i0 && fec_g_listed && !(*earliestTimeEst == fec_e0));
+#else
+#define FEC_STEP_COVER
+#endif
 #define VF_LOOP_STEP_FEC() \
-  __CPROVER_assert(FEC_LOOP_INV, "findEventCandidates.loop_invariant_step"); \
+  FEC_STEP_COVER \
+  __CPROVER_assert(0 <= i && i <= nCandidates, "findEventCandidates.loop_invariant_step (0) 0 <= i <= nCandidates"); \
+  __CPROVER_assert(FEC_F1(viableCandidates, i), "findEventCandidates.loop_invariant_step (1) equal lengths, at most one delivery per examined position"); \
+  __CPROVER_assert(FEC_F2(viableCandidates, i), "findEventCandidates.loop_invariant_step (2) examined position delivered iff its trigger changed sign in a monitored direction (index, direction, estimate in bracket)"); \
+  __CPROVER_assert(FEC_F3(viableCandidates, i), "findEventCandidates.loop_invariant_step (3) every delivered index comes from an examined position whose trigger changed sign"); \
+  __CPROVER_assert(FEC_F4(viableCandidates, i), "findEventCandidates.loop_invariant_step (4) delivery preserves the order of the examined list"); \
+  __CPROVER_assert(FEC_F5(viableCandidates, i), "findEventCandidates.loop_invariant_step (5) earliestTimeEst is the attained minimum of the delivered estimates"); \
+  __CPROVER_assert(FEC_F6(viableCandidates, i), "findEventCandidates.loop_invariant_step (6) minWindow <= narrowestWindow <= localisation requirement of every delivered candidate"); \
   __CPROVER_assert(candidates->data == vf_c0.data && candidates->cap == vf_c0.cap && timeEstimates->data == vf_t0.data && timeEstimates->cap == vf_t0.cap \
                    && transitions->data == vf_r0.data && transitions->cap == vf_r0.cap, "findEventCandidates.loop_frame: storage and capacity of the lists not reseated"); \
   __CPROVER_assert(i == vf_i0 + 1 && vf_i0 < nCandidates, "findEventCandidates.loop_decreases: nCandidates - i decreases and is bounded below"); \
